@@ -93,6 +93,7 @@ def main(run: Run) -> int:
         t, off, terms, paths_by_key = encode_functions(run)
     except pyz3.Unsupported as u:
         run.ob("translate 931..935", "PZ", INCONCLUSIVE, detail=f"source outside PZ subset: {u}")
+        witness_grid(run)
         witnesses_only(run)
         return run.finish("other", "PZ could not translate the current source; only replayed witnesses", False)
 
@@ -224,6 +225,7 @@ def main(run: Run) -> int:
             "every representable (instant, offset) pair",
         )
     run.sample({"lemma": "[932] verdict", "query": "1996<=t<2038 ∧ |off|<24h ∧ verdict(t,off) ≠ documented(t)", "answer": "unsat expected"})
+    witness_grid(run)
     witnesses_only(run)
     run.assume(
         "a parsed aware datetime is faithfully represented by (UTC instant in whole seconds, notation offset in seconds); sub-second inputs are outside",
@@ -244,6 +246,53 @@ def main(run: Run) -> int:
         "and every offset; counterexamples are rendered to ISO strings and replayed on the real evaluate_93x.",
         exhaustive=True,
     )
+
+
+def witness_grid(run: Run):
+    """TM validation on boundary instants (DESIGN §4.4): every EU switch instant 1996-2037 and the German-local 00:00 / 06:00
+    instants of the switch day and its neighbours, each +-1 s, written with 8 UTC offsets (incl. negative offsets with minutes
+    and Z), through the REAL evaluate_931..935 (real string parsing included) against the documented verdict computed by
+    independent integer arithmetic.  A disagreement is a violation replayed on the real code by construction."""
+    offsets = [0, 3600, 7200, -3600, -12600, 20700, -28800, 50400]
+    instants = set()
+    for inst, _ in tm.eu_switches(1996, 2037):
+        day0 = (inst // 86400) * 86400
+        for d in (-1, 0, 1):
+            for local in (0, 6 * 3600):
+                for off in (3600, 7200):
+                    base = day0 + d * 86400 + local - off
+                    for e in (-1, 0, 1):
+                        instants.add(base + e)
+        for e in (-1, 0, 1, 3600, -3600):
+            instants.add(inst + e)
+    instants = sorted(t for t in instants if T1996 <= t < T2038)
+    n = 0
+    bad = []
+    for t in instants:
+        for off in offsets:
+            iso = tm.render_iso(t, off)
+            if off == 0 and t % 2 == 0:
+                iso = iso.replace("+00:00", "Z")
+            for key in KEYS:
+                n += 1
+                real, info = real_verdict(key, iso)
+                want = spec_native(key, t, off)
+                if real != want:
+                    bad.append((key, iso, t, off, real, info, want))
+    run.counters["replayed_witnesses"] += n
+    name = f"boundary witnesses: {len(instants)} instants around every DST switch 1996-2037 x {len(offsets)} offsets x 5 constraints through the real evaluate_93x (string parsing included)"
+    if not bad:
+        run.ob(name, "replay", HELD)
+        return
+    key, iso, t, off, real, info, want = bad[0]
+    if real == RAISED:
+        what = f"evaluate_{key}('{iso}') raises {info}"
+        feats = {"key": "93x", "kind": "raises", "exception": info}
+    else:
+        what = f"evaluate_{key}('{iso}') is {'fulfilled' if real in (OK_, OK_MSG) else 'unfulfilled'}, documented: {'fulfilled' if want == OK_ else 'unfulfilled'} ({len(bad)} of {n} boundary witnesses disagree)"
+        feats = {"key": key if key == "931" else "932-935", "kind": "verdict", "zero_offset_not_midnight": bool(key == "931" and off == 0 and t % 86400 != 0)}
+    run.ob(name, "replay", VIOLATED, detail=what)
+    run.violation(name, what, feats, {"kind": "C20-iso", "property": "C20", "fc": key, "iso": iso, "t": t, "off": off})
 
 
 WITNESS_STRINGS = [None, "", " ", "foo", "2022-01-01", "2022-01-01T00:00:00", "2019-12-31T25:00:00+00:00", "2022-01-01T00:00:00+0", "Z", "2022-13-01T00:00:00Z", "0000-01-01T00:00:00Z", "2022-01-01T00:00:00+24:00", "١٢", "2022-01-01T00:00:00+01:00x", "T00:00:00+01:00"]
